@@ -394,8 +394,21 @@ def argsort(a, axis=-1, kind=None, order=None):
     return _wrap_out((a,), res)
 
 
+def _nan_last_key(v):
+    return v
+
+
 def sort(a, axis=-1):
     A = asarray(a)
+    if A.ndim == 2 and axis in (-1, 1):
+        rows = []
+        for i in range(A.shape[0]):
+            el = A[i]._elems()
+            nn = [v for v in el if not (type(_bare(v)) is float and _bare(v) != _bare(v))]
+            nans = [v for v in el if type(_bare(v)) is float and _bare(v) != _bare(v)]
+            idx = _stable_argsort(nn)
+            rows.append([nn[j] for j in idx] + nans)
+        return ndarray._from_flat([v for r in rows for v in r], A.shape, A.dtype)
     if A.ndim != 1:
         raise ModelGap('sort of n-d array')
     el = A._elems()
